@@ -320,7 +320,10 @@ func (x *cliExec) reference(rs *runStep, files map[string][]byte, stdin []byte) 
 		spec.Stdin.Tty = true
 	} else {
 		spec.Stdin.Data = stdin
-		spec.Stdin.Chunks = rs.Chunks
+		// The reference gets its input in other pieces than the cached run:
+		// how a pipe chunks the data is not something a user controls, so it
+		// must not show in the output either.
+		spec.Stdin.Chunks = altChunks(rs.Chunks)
 	}
 	r := runGts(w, withNoCache(rs.Argv), spec)
 	o := obs{Status: r.Status, Stdout: r.Stdout, Files: userFiles(w), Panic: r.Panic}
@@ -328,6 +331,13 @@ func (x *cliExec) reference(rs *runStep, files map[string][]byte, stdin []byte) 
 	x.refMemo[k] = o
 	simos.W = x.w
 	return o
+}
+
+func altChunks(c []int) []int {
+	if len(c) == 0 {
+		return []int{4093, 1, 17, 4096}
+	}
+	return nil
 }
 
 func filesDigestFull(m map[string][]byte) string {
